@@ -483,6 +483,21 @@ fn run_postcard(ctx: &Ctx) -> CheckResult {
 pub fn case_mock(va: &dyn VariantApi, s: &DeScript, st: &CaseStats) -> Result<(), String> {
     let v = va.v();
     st.eval();
+    // a format that honours the type hint (RON-like text formats, postcard) delivers only what was
+    // asked for: the hash's own serialized form comes back only if a string is asked of
+    // human-readable formats and bytes of compact ones
+    if let Some(h) = va.mock_de_hint(s.human) {
+        let ok: &[&str] = if s.human { &["deserialize_str", "deserialize_string", "deserialize_any"] } else { &["deserialize_bytes", "deserialize_byte_buf"] };
+        if !ok.contains(&h.as_str()) {
+            return Err(format!(
+                "{}: Deserialize asks a {} deserializer for {} — a format that honours the hint cannot hand back the {} the hash serializes to",
+                v.name,
+                if s.human { "human-readable" } else { "compact" },
+                h,
+                if s.human { "string" } else { "byte string" }
+            ));
+        }
+    }
     let got = catch(|| va.mock_de(s).unwrap()).map_err(|p| format!("{}: Deserialize panicked on the visitor event {:?} (human_readable = {}): {}", v.name, s.event, s.human, p))?;
     // `deserialize_in_place` (what Vec / Option / arrays use when reloading in place) is the same
     // function of the document: same verdict, same value, whatever the place held before
